@@ -65,7 +65,7 @@ def cases(draw, tier):
     world = draw(worlds(prof))
     G = Gen(draw, world, prof)
     L = LinGen(G, cplx=cplx)
-    nargs = draw(st.sampled_from([1, 2, 2, 2, 3]))
+    nargs = draw(st.sampled_from([1, 2, 2, 2, 3, 3]))
     if nargs == 3:
         # a third argument (number 2), as in derivative(a(u; v, w), u): linear, never conjugated
         world["fields"]["a2"] = dict(world["fields"][draw(st.sampled_from(["a0", "a1"]))], number=2)
@@ -85,7 +85,7 @@ def cases(draw, tier):
     kind = draw(st.sampled_from(["linear", "linear", "broken", "broken"]))
     brk = None
     if kind == "broken":
-        brk = draw(st.sampled_from(BREAKS + (["conj_third"] * 6 if (cplx and nargs == 3) else []) + (["sum_conj"] * 4 if cplx else [])))
+        brk = draw(st.sampled_from(BREAKS + (["conj_third"] * 14 if (cplx and nargs == 3) else []) + (["sum_conj"] * 4 if cplx else [])))
         a = draw(st.sampled_from(argnames))
         s = scalar_of(G, L, a)
         free = G.expr((), (), 1)
